@@ -140,6 +140,61 @@ def flush_jobs(wd, tier):
     return jobs
 
 
+def model_validation(prop, extra_cov):
+    """post-processing hook: the same real executions, validated as behaviours of the design model QueueCore itself
+    (spec/Trace_QueueCore.tla): drift is reported, what the model's own `viol` flags on a real execution is a violation"""
+    from .. import qcore
+    from ..common import MachineryError
+
+    def post(oc, traces, summaries):
+        proj, skipped = [], 0
+        for tr in traces:
+            p_ = qcore.project(tr)
+            if p_ is None:
+                skipped += 1
+            else:
+                p_['cls'] = tr.get('cls', 'any')
+                proj.append(p_)
+        if not proj:
+            return
+        # binding canary: one trace with a quiescent point that shows another set of active ids must not be accepted
+        can = None
+        for p_ in proj:
+            qs = [i for i, e in enumerate(p_['ev']) if e['t'] == 'quiesce' and e['act']]
+            if qs:
+                can = copy.deepcopy(p_)
+                can['id'] = max(x['id'] for x in proj) + 1
+                can['ev'][qs[0]]['act'] = []
+                break
+        r = qcore.validate(proj + ([can] if can else []), tag='qcore' + prop)
+        ver = r['verdicts']
+        if can:
+            cv = ver.pop(can['id'])
+            if cv[0] == 'OK':
+                raise MachineryError('binding canary accepted by Trace_QueueCore: active ids emptied at a quiescent point')
+        byid = {p_['id']: p_ for p_ in proj}
+        full = {tr['id']: tr for tr in traces}
+        drift, mviol, samples = {}, 0, []
+        for tid, (v, d) in sorted(ver.items()):
+            cls = byid[tid]['cls']
+            if v == 'DRIFT':
+                drift[cls] = drift.get(cls, 0) + 1
+                if len(samples) < 3:
+                    samples.append({'trace_id': tid, 'cls': cls, 'detail': d})
+            elif v == 'MODEL_VIOL':
+                for c in d:
+                    if c.startswith(prop + '_'):
+                        mviol += 1
+                        oc.violation(c, cls + '-model', {'trace_id': tid, 'clauses': d, 'cfg': full[tid].get('cfg'),
+                                                         'by': 'QueueCore.viol on a real execution (Trace_QueueCore)'}, full[tid])
+        extra_cov['design_model_validation'] = {
+            'module': 'Trace_QueueCore (EXTENDS QueueCore)', 'traces': len(proj), 'outside_the_model': skipped,
+            'accepted': sum(1 for v in ver.values() if v[0] == 'OK'), 'drift': drift, 'model_flagged': mviol,
+            'groups_of_constants': r['groups'], 'tlc_states': r['states'], 'tlc_distinct': r['distinct'], 'wall_s': r['wall_s'],
+            'canary_rejected': bool(can), 'drift_samples': samples}
+    return post
+
+
 def run_queue_prop(prop, tier, mc_names, canaries, rule, trigger, text_assumptions, level='model_checking'):
     wd = workdir(prop)
     mc_jobs = qc_jobs(wd, mc_names)
@@ -147,6 +202,7 @@ def run_queue_prop(prop, tier, mc_names, canaries, rule, trigger, text_assumptio
         mc_jobs += pool_jobs(wd, tier)
     if prop == 'C12':
         mc_jobs += flush_jobs(wd, tier)
+    extra_cov = {}
     return flow.standard(
         prop, tier, mc_jobs, 'queue', 'Trace_Queue', 'Trace_Queue.cfg', canaries, level=level, rule=rule, trigger=trigger,
         assumptions=text_assumptions + [
@@ -156,7 +212,8 @@ def run_queue_prop(prop, tier, mc_names, canaries, rule, trigger, text_assumptio
             'are gates released by the explored schedule'],
         trusted=['TLC 1.8', 'CommunityModules Json/IOUtils', 'harness/qdrv.py (gates, event projection)', 'harness/vt.py',
                  'harness/backends.py (redis / object-store doubles)'],
-        driver_args=(prop,), wd=wd, clause_filter=lambda c: c.startswith(prop + '_'))
+        driver_args=(prop,), wd=wd, clause_filter=lambda c: c.startswith(prop + '_'),
+        extra_cov=extra_cov, post=model_validation(prop, extra_cov))
 
 
 def replay(prop, path):
